@@ -332,10 +332,14 @@ func c12RunDist(c *sim.Ctx) {
 		for _, r := range pending {
 			w.afterOp(r, pending)
 		}
+		wasPar := par && len(pending) > 1
 		pending, par = nil, false
 		if !w.lazy {
 			w.settle()
 			w.checkWatch()
+			if wasPar {
+				w.sweepAgreement("par")
+			}
 		}
 	}
 
@@ -356,6 +360,11 @@ func c12RunDist(c *sim.Ctx) {
 			busy := false
 			for _, r := range pending {
 				if r.slot == sl && r.sub == c12sub(op.Arg(1)) {
+					// two overlapping calls of one node for one subscriber only as (allocate|renew) vs release
+					if par && (r.kind == "release") != (op.K == "release") {
+						c.S.Probe("par_same_subscriber_" + r.kind + "_vs_" + op.K)
+						continue
+					}
 					busy = true
 				}
 			}
@@ -395,6 +404,7 @@ func c12RunDist(c *sim.Ctx) {
 			if !w.lazy {
 				w.settle()
 				w.checkWatch()
+				w.sweepAgreement("tick")
 			}
 		case "settle":
 			finish()
@@ -414,6 +424,7 @@ func c12RunDist(c *sim.Ctx) {
 	w.st.quiet = true
 	w.settle()
 	w.checkWatch()
+	w.sweepAgreement("end")
 	if !c.Failed() {
 		w.checkInnerJSON()
 	}
@@ -503,16 +514,39 @@ func c12Gen(r *sim.Rand, tier string) *sim.Case {
 		cs.Knobs["f_maxcrash"] = int64(r.Range(1, 3))
 	}
 	nsub := r.Range(2, 6)
+	if lease && !multi && r.P(20) {
+		// keep-alive motif, fault-free: a subscriber keeps its lease alive by asking again (or
+		// renewing) once per epoch for several epochs while others come and go, then the node restarts
+		delete(cs.Knobs, "f_watch_pm")
+		delete(cs.Knobs, "f_err_pm")
+		delete(cs.Knobs, "f_crash_pm")
+		keep := int64(r.N(nsub))
+		cs.Ops = append(cs.Ops, sim.Op{K: "alloc", A: []int64{0, keep, 0}})
+		for k := r.Range(3, 6); k > 0; k-- {
+			cs.Ops = append(cs.Ops, sim.Op{K: "tick", A: []int64{2}})
+			if r.P(70) {
+				cs.Ops = append(cs.Ops, sim.Op{K: "alloc", A: []int64{0, keep, 0}})
+			} else {
+				cs.Ops = append(cs.Ops, sim.Op{K: "renew", A: []int64{0, keep}})
+			}
+			if r.P(40) {
+				cs.Ops = append(cs.Ops, sim.Op{K: sim.Pick(r, "alloc", "alloc", "release"), A: []int64{0, int64(r.N(nsub)), 0}})
+			}
+		}
+		cs.Ops = append(cs.Ops, sim.Op{K: "restart", A: []int64{0}})
+		n = r.Range(0, 4)
+	}
 	for i := 0; i < n; i++ {
 		node := int64(r.N(nodes))
 		sub := int64(r.N(nsub))
-		ww := []int{12, 5, 0, 3, 3, 1, 3, 2, 1, 1}
+		ww := []int{12, 5, 0, 3, 3, 1, 3, 2, 1, 1, 0}
 		if lease {
 			ww[2] = 4
 			ww[7] = 4
+			ww[10] = 3
 		}
 		if !multi {
-			ww[9] = 0
+			ww[9] = 1 // with one node: the next two operations overlap (same subscriber allowed for X vs release)
 		}
 		switch r.Weighted(ww...) {
 		case 0:
@@ -539,6 +573,14 @@ func c12Gen(r *sim.Rand, tier string) *sim.Case {
 			cs.Ops = append(cs.Ops, sim.Op{K: "settle"})
 		case 9:
 			cs.Ops = append(cs.Ops, sim.Op{K: "par"})
+		case 10:
+			// a renewal (or repeated request) overlapping the release of the same lease on one node
+			a := sim.Op{K: sim.Pick(r, "renew", "renew", "alloc"), A: []int64{node, sub, 0}}
+			b := sim.Op{K: "release", A: []int64{node, sub}}
+			if r.P(50) {
+				a, b = b, a
+			}
+			cs.Ops = append(cs.Ops, sim.Op{K: "alloc", A: []int64{node, sub, 0}}, sim.Op{K: "par"}, a, b)
 		}
 	}
 	return cs
